@@ -100,6 +100,6 @@ def match_known(case, fail, known):
                 return k
             if k.get('id') == 'K26' and cl.startswith('processor-raises:ValueError') and 'max() iterable argument is empty' in det:
                 return k
-        if k.get('id') == 'K23' and fail.get('clause') in ('architectures-differ', 'n-valid-designs-differs') and _group_with_open_member(case):
+        if k.get('id') == 'K23' and fail.get('clause') in ('architectures-differ', 'n-valid-designs-differs', 'two-rows-one-architecture') and _group_with_open_member(case):
             return k
     return dsgcase.match_known({k: v for k, v in case.items() if k != 'conn'}, fail, known)
